@@ -12,7 +12,7 @@ HEAD = """(* %s -- %s
    execution after every action; `no_err err_Cxx m` = the monitor reported no error of this property's class;
    `no_raise ls` = no request ended in an exception. *)
 From Coq Require Import ZArith List Bool.
-From CS Require Import Actions NAdvance Multistage Exec Sched RunFacts Projections BasicInv MultistageRun TLBridge.
+From CS Require Import Actions NAdvance Multistage Exec Sched RunFacts Projections BasicInv MultistageRun TLBridge MixBridge.
 Import ListNotations.
 Open Scope Z_scope.
 
@@ -62,6 +62,16 @@ Proof.
 Qed.
 Print Assumptions {pid}_twolevel.
 
+(* MixedCheckpointSchedule: every N, every unit count, both storages, both planner paths (memoised / tabulated) *)
+Theorem {pid}_mixed : forall (N s : Z) (sg : storage) (tab : bool) (k : nat),
+  1 <= N -> 0 <= s -> (2 <= N -> 1 <= s) -> sg = RAM \\/ sg = DISK ->
+  exists o0 m ls, run_case (PMixed N s sg tab) (pmx N (Z.min s (N - 1)) sg) (repeat Next k) = Ok (o0, m, ls) /\\ no_err {e} m /\\ no_raise ls.
+Proof.
+  intros N s sg tab k H1 H2 H3 H4. destruct (mixed_run N s sg tab k H1 H2 H3 H4) as (o0 & m & ls & E & Hm & Hl).
+  exists o0, m, ls. auto using mon_ok_no_err.
+Qed.
+Print Assumptions {pid}_mixed.
+
 """
     return t
 
@@ -79,7 +89,6 @@ def lifted(new, mod, name, comment):
         comment.replace('*)','* )'), new, mod, new, t.replace('\n','\n  '), mod, name, new, new)
 
 PARTIAL_SAFETY = [
- ('%s_mixed_machine_partial','MixInv','step_ok','PARTIAL (Mixed): the invariant theorem for the Mixed generator over an abstract planner satisfying the five facts proved in MixDP.v, against a single-storage executor; the bridge to the extracted Mixed model / Exec.v is not proved yet (DESIGN.md 6)'),
  ('%s_revolve_structural_partial','RevGen','revolve_stream_ok','PARTIAL (Revolve): the whole converted stream of the structural converter is accepted by an executor with RAM budget cm; the bridge from the index-based converter of Model/RevConv.v is not proved yet; DiskRevolve, PeriodicDiskRevolve and HRevolve: validated model + oracle only (DESIGN.md 6)'),
 ]
 
@@ -91,7 +100,7 @@ for l in open('/verif/properties.jsonl'):
 files = {}
 for pid, cls in [('C01','C01'),('C02','C02'),('C03','C03'),('C04','C04'),('C08','C08'),('C12','C12')]:
     body = HEAD % (pid, TITLES[pid]) + safety(pid, cls, '')
-    body = body.replace("From CS Require Import Actions", "From CS Require MixInv RevGen.\nFrom CS Require Import Actions")
+    body = body.replace("From CS Require Import Actions", "From CS Require RevGen.\nFrom CS Require Import Actions")
     for new, mod, name, cm in PARTIAL_SAFETY:
         body += lifted(new % pid, mod, name, cm)
     files[pid] = body
@@ -101,7 +110,7 @@ HEAD2 = """(* %s -- %s
    Property theorems only: each proof is one application of a lemma proved in Proofs/, followed by Print Assumptions. *)
 From Coq Require Import ZArith List Bool.
 From CS Require %s.
-From CS Require Import Actions NAdvance Multistage Exec Sched RunFacts Projections BasicInv MultistageRun TLBridge.
+From CS Require Import Actions NAdvance Multistage Exec Sched RunFacts Projections BasicInv MultistageRun TLBridge MixBridge.
 Import ListNotations.
 Open Scope Z_scope.
 
@@ -125,10 +134,24 @@ mk('C05', ['Inst','GW2','RevCost','BinomDP'], [C05_total,
    lifted('C05_gw_main','GW2','GW_main','Griewank-Walther: DP value = schedule recursion = closed form, for any E, Eh satisfying the DP / recursion equations'),
    lifted('C05_dp_is_min','BinomDP','E_le','the DP value is minimal among all bisection splits'),
    lifted('C05_revolve_work_partial','RevCost','revolve_work','PARTIAL (Revolve): forward work of the generated op list = (l+1) + step-count DP, independent of uf, ub; table correctness is a hypothesis; clause "no executable schedule whatsoever does better" is not proved (DESIGN.md 6 C05)')])
-mk('C06', ['MixInv','MixDP'], [
-   lifted('C06_mixed_total_partial','MixInv','done_total','PARTIAL: on the Mixed generator over an abstract planner: forward steps executed = planner cost C N S, storage empty at the end; bridge to the extracted model not proved yet; optimality over all schedules not proved'),
-   lifted('C06_plan_1','MixDP','plan_1',''), lifted('C06_plan_ge2','MixDP','plan_ge2','facts of the concrete planner model'),
-   lifted('C06_plan_2','MixDP','plan_2',''), lifted('C06_C_ics','MixDP','C_ics','cost recurrence, restart checkpoint'), lifted('C06_C_adj','MixDP','C_adj','cost recurrence, adjoint-dependency checkpoint')])
+C06_total = """(* Mixed on the extracted model (either planner path): once the schedule reports exhaustion the reference executor has carried
+   out exactly C N S forward steps -- the cost of the planner's recurrence (C3 N S = MixDP.C N S, the model of
+   mixed_step_memoization(N, S)[2]); the same for RAM and DISK *)
+Theorem C06_mixed_forward_total : forall (N S_ : Z) (sg : storage) (tab : bool), 1 <= N -> (2 <= N -> 1 <= S_) -> 0 <= S_ -> sg = RAM \\/ sg = DISK -> forall k : nat,
+  let '(s', m, ls) := run_ops (pmx N S_ sg) (sch0 N S_ sg tab) mon0 (repeat Next k) in
+  mon_ok m /\\ no_raise ls /\\ (is_exhausted s' = true -> fwd_total (cnt (mx m)) = C3 N S_).
+Proof. exact mixed_cfg_run. Qed.
+Print Assumptions C06_mixed_forward_total.
+
+Theorem C06_cost_is_planner_cost : forall m k : Z, 1 <= m -> (1 <= k \\/ m = 1 /\\ 0 <= k) -> C3 m k = MixDP.C m k.
+Proof. exact C3_C. Qed.
+Print Assumptions C06_cost_is_planner_cost.
+
+"""
+mk('C06', ['MixInv','MixDP'], [C06_total,
+   lifted('C06_plan_1','MixDP','plan_1',''), lifted('C06_plan_ge2','MixDP','plan_ge2','facts of the concrete planner model: the step kind and length it prescribes'),
+   lifted('C06_plan_2','MixDP','plan_2',''), lifted('C06_C_ics','MixDP','C_ics','cost recurrence, restart checkpoint'), lifted('C06_C_adj','MixDP','C_adj','cost recurrence, adjoint-dependency checkpoint'),
+   lifted('C06_planC_unfold_partial','MixDP','planC_unfold','PARTIAL: the planner value is the minimum over the candidates of its own recurrence (one-level unfolding); that no executable schedule whatsoever does better (Maddison 2024, Thm 1) is not proved')])
 mk('C07', ['RevCost'], [
    lifted('C07_revolve_work_partial','RevCost','revolve_work','PARTIAL: Revolve only; table correctness as hypothesis; DiskRevolve/Periodic/HRevolve cost theorems not proved (oracle + correspondence only)'),
    lifted('C07_argmin_min','RevCost','argmin_min','the split chosen is a minimiser'), lifted('C07_argmin_affine','RevCost','argmin_affine','the split does not depend on uf, ub')])
@@ -163,9 +186,11 @@ Print Assumptions C13_twolevel_run.
 mk('C14', ['TopK','AllocProofs'], [lifted('C14_construct_labels','AllocProofs','construct_labels','the labels of a constructed Multistage schedule: all RAM or DISK, min(ram+disk, N-1) of them, at most min(ram, N-1) RAM and at most min(disk, N-1) DISK'),
    lifted('C14_alloc_labels_facts','AllocProofs','alloc_labels_facts','exactly min(ram, #positions) positions are labelled RAM'),
    lifted('C14_topk_max_partial','TopK','topk_max','PARTIAL: the first k of a descending list maximise the sum over all k-sub-multisets; the glue (weights = access counts of the stream; labels-only simulation) is not proved')])
-mk('C15', ['MemoCoh','SchedProofs'], [lifted('C15_cache_coherent','MemoCoh','C15_cache_coherent','every cache reachable by any sequence of calls holds only correct entries'),
+mk('C15', ['MemoCoh','SchedProofs'], [lifted('C15_memo_warm_planC','MemoCoh','memo_warm_planC','the memoised planner as the extracted iterator uses it (cache warmed by an arbitrary earlier call) returns the canonical plan for every sub-problem'),
+   lifted('C15_memoS_total','MemoCoh','memoS_total','with enough fuel a call succeeds from any coherent cache'),lifted('C15_cache_coherent','MemoCoh','C15_cache_coherent','every cache reachable by any sequence of calls holds only correct entries'),
    lifted('C15_history_independent','MemoCoh','C15_history_independent','a successful call returns the pure value whatever the call history')])
-mk('C16', ['TabEq'], [lifted('C16_table','TabEq','C16_table','the tabulated planner never fails an assertion and every entry equals the memoised planner')])
+mk('C16', ['TabEq','TabSim','MemoCoh'], [lifted('C16_tabulate_planC','TabSim','tabulate_planC','the extracted tabulated planner (list of lists, as the numpy array) succeeds and every entry is the canonical plan'),
+   lifted('C16_memo_warm_planC','MemoCoh','memo_warm_planC','... and so is every answer of the extracted memoised planner: the two paths prescribe the same kind, length and cost'),lifted('C16_table','TabEq','C16_table','the tabulated planner never fails an assertion and every entry equals the memoised planner')])
 mk('C17', ['NAdv','AllocProofs'], [lifted('C17_n_advance_total','NAdv','n_advance_spec','n_advance never raises on its domain; range; limiting cases; optimal region'),
    lifted('C17_construct_labels','AllocProofs','construct_labels','shape of a constructed Multistage schedule')])
 C18_runs = safety('C18','C18','')
